@@ -199,6 +199,7 @@ def run(ctx):
     for sc in SCRIPTS:
         scenario(ctx, sc)
     wiring(ctx)
+    l2_all(ctx)
 
 
 def strip_function(ctx):
@@ -534,10 +535,229 @@ def wiring(ctx):
     ctx.correspond('wiring', cases, impls)
 
 
+# ---- L2: the unmodified Supervisor.runforever over harness/simkernel.py ------------------------------------
+
+def l2_gen(rng):
+    """(programs, script): output-writing children, exits, respawns, fork/pipe faults, start/stop RPCs"""
+    import signal as _sg
+    n = rng.randrange(2, 5)
+    progs = []
+    for i in range(n):
+        progs.append(dict(name='p%d' % i, group='g%d' % (i % 2), gprio=999, prio=999, autostart=rng.random() < 0.75,
+                          autorestart=rng.choice(['true', 'true', 'unexpected']), startsecs=rng.choice([0, 0, 1]), startretries=3,
+                          exitcodes=[0], stopsignal=_sg.SIGTERM, stopwaitsecs=2, dies_on='any', die_delay=0,
+                          capture=rng.choice([0, 0, 40]), events=rng.random() < 0.6, redirect_stderr=rng.random() < 0.25))
+    names = [p['name'] for p in progs]
+    cap = {p['name']: p['capture'] for p in progs}
+    script, seq, rid = [], 0, 0
+    for i in range(rng.randrange(12, 40)):
+        acts = []
+        for _ in range(rng.choice([0, 1, 1, 2, 3])):
+            nm = rng.choice(names)
+            ch = rng.choice(['stdout', 'stdout', 'stderr'])
+            seq += 1
+            tag = b'<%s.%s.%d>' % (nm.encode(), ch[3:].encode(), seq)
+            r = rng.random()
+            if cap[nm] and ch == 'stdout' and r < 0.45:
+                t = rng.choice([od.DOC_BEGIN, od.DOC_END])
+                k = rng.randrange(1, len(t))
+                data = rng.choice([t, t, tag + t, t[:k], t[k:], tag + t[:k]])
+            else:
+                nbytes = rng.choice([1, 3, 9, 20, 60, 300])
+                data = (tag * (nbytes // 8 + 1))[:max(nbytes, 1)] if r < 0.7 else tag
+            acts.append(('write', nm, ch, data))
+        r = rng.random()
+        if r < 0.22:
+            acts.append(('exit', rng.choice(names), rng.choice([0, 0, 1])))
+        elif r < 0.34:
+            acts.append(('fault', rng.choice(['fork', 'fork', 'pipe']), rng.choice([errno.EAGAIN, errno.EMFILE]), rng.choice([1, 1, 2])))
+        elif r < 0.46:
+            rid += 1
+            nm = rng.choice(names)
+            full = 'g%d:%s' % (int(nm[1:]) % 2, nm)
+            acts.append(('rpc', rid, rng.choice(['supervisor.stopProcess', 'supervisor.startProcess', 'supervisor.startProcess']), (full, False)))
+        script.append((rng.choice([256, 512, 1024, 1024, 2048]), acts))
+    script.append((1024, []))
+    script.append((1024, []))
+    return progs, script
+
+
+L2_SCRIPTS = [
+    # F11 under the real loop: p1's fork fails (its pipes are closed again), p0 respawns on the same numbers, and writes
+    ([dict(name='p0', group='g0', autorestart='true', startsecs=0, capture=0, events=True),
+      dict(name='p1', group='g1', autorestart='true', startsecs=0, capture=0, events=True)],
+     [(1024, [('write', 'p0', 'stdout', b'<p0.out.1>first'), ('write', 'p1', 'stdout', b'<p1.out.2>first')]),
+      (1024, [('exit', 'p0', 0), ('exit', 'p1', 0), ('fault', 'fork', errno.EAGAIN, 1)]),
+      (1024, []), (1024, []),
+      (1024, [('write', 'p0', 'stdout', b'<p0.out.3>second'), ('write', 'p0', 'stderr', b'<p0.err.4>second'),
+              ('write', 'p1', 'stdout', b'<p1.out.5>second')]),
+      (1024, []), (2048, []), (1024, [])], 1),
+    # F11, the dictionary order that misroutes: p1 (later group) fails to fork on the lowest numbers while p0 is stopped,
+    # then p0 is started by RPC on the same numbers and writes before p1's retry
+    ([dict(name='p0', group='g0', autostart=False, autorestart='false', startsecs=0, capture=0, events=True),
+      dict(name='p1', group='g1', autorestart='true', startsecs=0, capture=0, events=True)],
+     [(256, [('fault', 'fork', errno.EAGAIN, 1)]),
+      (256, [('rpc', 1, 'supervisor.startProcess', ('g0:p0', False))]),
+      (256, []),                                         # the call runs (and forks) in this pass
+      (256, [('write', 'p0', 'stdout', b'<p0.out.1>hello'), ('write', 'p0', 'stderr', b'<p0.err.2>oops')]),
+      (256, []), (1024, [('write', 'p1', 'stdout', b'<p1.out.3>late')]), (1024, []), (1024, [])], 0),
+    # F29 under the real loop: capture on, the child writes a few bytes and exits in the same pass
+    ([dict(name='p0', group='g0', autorestart='false', startsecs=0, capture=40, events=True)],
+     [(1024, [('write', 'p0', 'stdout', b'<p0.out.1>'), ('exit', 'p0', 0)]), (1024, []), (1024, [])], 2),
+    ([dict(name='p0', group='g0', autorestart='false', startsecs=0, capture=40, events=True)],
+     [(1024, [('write', 'p0', 'stdout', b'a' * 30 + od.DOC_BEGIN[:9])]), (1024, [('write', 'p0', 'stdout', od.DOC_BEGIN[9:] + b'cap' + od.DOC_END[:5])]),
+      (1024, [('write', 'p0', 'stdout', od.DOC_END[5:] + b'tail'), ('exit', 'p0', 0)]), (1024, []), (1024, [])], 3),
+]
+
+
+def l2_run(ctx, progs, script, ready_seed):
+    import random, shutil
+    import l2
+    from simkernel import SimKernel
+    logdir = os.path.join(ctx.scratch, 'l2logs')
+    shutil.rmtree(logdir, ignore_errors=True)
+    os.makedirs(logdir)
+    ps = [dict(p, logdir=logdir) for p in progs]
+    k = SimKernel(ps, script, scratch=ctx.scratch, ready_rng=random.Random(ready_seed) if ready_seed else None)
+    k.run()
+    inp = dict(l2.scenario_input(progs, script, ready_seed=ready_seed), level='L2')
+    mon_c07(ctx, k, inp, logdir)
+    return k
+
+
+def mon_c07(ctx, k, inp, logdir=None):
+    """per-process log files and PROCESS_LOG / PROCESS_COMMUNICATION events against the bytes each child was made to
+    write, under the unmodified runforever: complete after the child is reaped, in order, exactly once, nowhere else"""
+    ctx.count('L2-scenarios')
+    if not k.outcome or k.outcome.startswith('exception'):
+        ctx.count('L2-main-loop-died(C06)')
+        return
+    progs = k.programs
+    gens = {n: [] for n in progs}        # name -> [dict(pid, stdout=bytearray, stderr=bytearray, reaped)]
+    bypid = {}
+    fork_failed = spawn_after_fail = reaped_with_data = False
+    pipebuf = {}
+    for r in k.log:
+        kd = r['kind']
+        if kd == 'fork' and r['name'] in gens:
+            g = dict(pid=r['pid'], stdout=bytearray(), stderr=bytearray(), reaped=False)
+            gens[r['name']].append(g); bypid[r['pid']] = (r['name'], g)
+            if fork_failed:
+                spawn_after_fail = True
+        elif kd == 'fault' and r['call'] in ('fork', 'pipe'):
+            fork_failed = True
+        elif kd == 'childwrite':
+            nm, g = bypid[r['pid']]
+            ch = 'stdout' if progs[nm].get('redirect_stderr') else r['chan']
+            g[ch] += r['data']
+            pipebuf[r['pipe']] = pipebuf.get(r['pipe'], 0) + len(r['data'])
+        elif kd == 'read':
+            pipebuf[r['pipe']] = pipebuf.get(r['pipe'], 0) - len(r['data'])
+        elif kd == 'wait' and r.get('pid') in bypid:
+            bypid[r['pid']][1]['reaped'] = True
+    # a child counts as reaped-with-data when bytes were read from its pipe after its wait record
+    waited = set()
+    for r in k.log:
+        if r['kind'] == 'wait' and r.get('pid'):
+            waited.add(r['pid'])
+        elif r['kind'] == 'read' and r['data']:
+            for pid in waited:
+                c = k.children.get(pid)
+                if c is not None and ((c.stdout is not None and c.stdout.id == r['pipe']) or (c.stderr is not None and c.stderr.id == r['pipe'])):
+                    reaped_with_data = True
+    if spawn_after_fail: ctx.count('L2-spawn-after-failed-fork-or-pipe')
+    if reaped_with_data: ctx.count('L2-reaped-with-data-in-pipe')
+
+    def bad(kind, what):
+        ctx.violation(kind, what, inp)
+
+    def expected(nm, ch, g, final):
+        """(bytes that must be in the log for this generation, sections) ; final = the child has been reaped"""
+        data = bytes(g[ch])
+        if ch == 'stdout' and progs[nm].get('capture'):
+            plain, sections, open_ = od.ref_split(data)
+            return plain, sections
+        return data, []
+
+    events = [r for r in k.log if r['kind'] == 'event' and r['name'].startswith(('PROCESS_LOG', 'PROCESS_COMMUNICATION'))]
+    for nm, p in progs.items():
+        for ch, ext in (('stdout', '.out'), ('stderr', '.err')):
+            path = os.path.join(logdir, nm + ext)
+            got = open(path, 'rb').read() if os.path.exists(path) else b''
+            want_full, must = b'', 0
+            for g in gens[nm]:
+                e, _ = expected(nm, ch, g, g['reaped'])
+                want_full += e
+                if g['reaped']:
+                    must = len(want_full)
+            foreign = [m for m in re.findall(rb'<(p\d)\.', got) if m.decode() != nm]
+            if foreign:
+                bad('l2-byte-in-wrong-log', 'log of %s.%s holds bytes written by %s: %r' % (nm, ch, foreign[0].decode(), got[:80]))
+            elif not want_full.startswith(got):
+                bad('l2-bytes-duplicated-or-reordered', '%s.%s: log %r is not a prefix of what was written (minus capture sections) %r' % (nm, ch, got[-80:], want_full[-80:]))
+            elif len(got) < must:
+                bad('l2-bytes-missing-after-reap', '%s.%s: %d bytes written by reaped children (outside capture sections), %d in the log; missing from %r' % (
+                    nm, ch, must, len(got), want_full[len(got):len(got) + 60]))
+            # PROCESS_LOG events: same bytes, this process, this channel, the writer's pid
+            evs = [r for r in events if r['name'].startswith('PROCESS_LOG') and r['process'] == nm and r['channel'] == ch]
+            cat = b''.join(r['data'] for r in evs)
+            if p.get('events'):
+                if cat != got:
+                    bad('l2-plog-differs-from-log', '%s.%s: PROCESS_LOG data %r, log %r' % (nm, ch, cat[-60:], got[-60:]))
+            elif evs:
+                bad('l2-plog-while-disabled', '%s.%s: PROCESS_LOG events with events disabled' % (nm, ch))
+    # attribution of every event by the tags it carries
+    writer = {}
+    for r in k.log:
+        if r['kind'] == 'childwrite':
+            for m in re.findall(rb'<p\d\.(?:out|err)\.\d+>', r['data']):
+                writer[m] = (r['name'], r['pid'])
+    for r in events:
+        for m in re.findall(rb'<p\d\.(?:out|err)\.\d+>', r['data']):
+            w = writer.get(m)
+            if w and (w[0] != r['process'] or w[1] != r['pid']):
+                bad('l2-event-attribution', '%s for %s pid %s carries %r written by %s pid %d' % (r['name'], r['process'], r['pid'], m, w[0], w[1]))
+                break
+    # PROCESS_COMMUNICATION events: one per closed section of each generation, trailing part, bounded
+    for nm, p in progs.items():
+        capmax = p.get('capture') or 0
+        secs = []
+        for g in gens[nm]:
+            if capmax:
+                _, s, _ = od.ref_split(bytes(g['stdout']))
+                secs.append((g, s))
+        comm = [r for r in events if r['name'].startswith('PROCESS_COMMUNICATION') and r['process'] == nm]
+        allsecs = [(g, s) for g, ss in secs for s in ss]
+        nreaped = sum(len(ss) for g, ss in secs if g['reaped'])
+        if len(comm) > len(allsecs) or len(comm) < nreaped:
+            bad('l2-comm-event-count', '%s: %d PROCESS_COMMUNICATION events, %d closed sections (%d of reaped children)' % (nm, len(comm), len(allsecs), nreaped))
+        for r, (g, s) in zip(comm, allsecs):
+            if not s.endswith(r['data']) or len(r['data']) > capmax or (len(s) <= capmax and r['data'] != s) or r['pid'] != g['pid']:
+                bad('l2-comm-event-data', '%s: event data %r (pid %s) for enclosed bytes %r (pid %d), capture_maxbytes=%d' % (nm, r['data'][:40], r['pid'], s[:40], g['pid'], capmax))
+                break
+
+
+def l2_all(ctx):
+    rng = ctx.rng
+    for progs, script, seed in L2_SCRIPTS:
+        k = l2_run(ctx, progs, script, seed)
+        ctx.case_done(('L2', repr(script)), True)
+    for _ in range(ctx.n(120, 2500)):
+        progs, script = l2_gen(rng)
+        k = l2_run(ctx, progs, script, rng.randrange(1, 1 << 30))
+        ctx.case_done(('L2', repr(script)), True)
+        ctx.count('L2-forks', sum(1 for r in k.log if r['kind'] == 'fork'))
+        ctx.count('L2-child-writes', sum(1 for r in k.log if r['kind'] == 'childwrite'))
+
+
 def replay(ctx, data):
     inp = data['input']
     lvl = inp.get('level')
-    if lvl == 'L1.5':
+    if lvl == 'L2':
+        import l2
+        progs, script = l2.scenario_from_input(inp)
+        l2_run(ctx, progs, script, inp['opts'].get('ready_seed'))
+    elif lvl == 'L1.5':
         scenario(ctx, (inp['settings'], inp['ops']))
     elif lvl == 'L1':
         cfg = Cfg(**inp['cfg'])
